@@ -19,7 +19,7 @@ ASSUMPTIONS = ['simulated device implements the firmware TOC protocol (V1 and V2
                'platform / link-control requests are never lost (the library sends them without retry)']
 REQUIRED = ['mon.tables_at_connected', 'mon.lookup_entries', 'mon.stale_sessions', 'mon.lossy_retransmissions',
             'mon.v1_cases', 'mon.over_255', 'mon.cache_reconnects', 'mon.early_param_packets',
-            'mon.stale_item_replies_mid_download']
+            'mon.stale_item_replies_mid_download', 'mon.cache_shared_with_another_firmware']
 DESC_TIMEOUT = 900
 
 SIZES = [0, 1, 2, 3, 254, 255, 256, 257, 300]
@@ -61,8 +61,19 @@ def run(desc, ctx):
     if desc['proto'] <= 0:
         prof['legacy_source'] = desc['proto'] < 0    # no magic string -> protocol version stays -1
         prof['proto'] = max(desc['proto'], 0)
-    dev = simcf.SimCF(prof)
     pol = desc['policy']
+    other_fw = None
+    if pol == 'cachenotify' and desc['seed'] % 3 == 0:
+        # the cache already holds the tables of ANOTHER firmware whose checksums end with the same hex digits as the
+        # (short, leading-zero) checksums of the device under test
+        prof['log_crc'] = rnd.choice((0, 0x13C7, rnd.randrange(1, 0x10000), rnd.randrange(1, 0x1000000)))
+        prof['param_crc'] = rnd.choice((0xB2D6, rnd.randrange(1, 0x10000), rnd.randrange(1, 0x1000000)))
+        if prof['param_crc'] == prof['log_crc']:
+            prof['param_crc'] += 1
+        other_fw = gen.profile(desc['seed'] + 991, max(1, desc['nlog'] // 2 + 1), max(1, desc['nparam'] // 2 + 2), proto=10)
+        other_fw['log_crc'] = 0x5A0F0000 | prof['log_crc'] if prof['log_crc'] < 0x10000 else 0x5A000000 | prof['log_crc']
+        other_fw['param_crc'] = 0x7B1D0000 | prof['param_crc'] if prof['param_crc'] < 0x10000 else 0x7B000000 | prof['param_crc']
+    dev = simcf.SimCF(prof)
     spec = simlink.LinkSpec(dev, needs_resending=(pol == 'lossy'), latency=0.001)
     uri = 'sim://c03'
     simlink.SIMS[uri] = spec
@@ -100,6 +111,20 @@ def run(desc, ctx):
 
     def fn(s):
         dev.now = lambda: s.now
+        if other_fw is not None:
+            deva = simcf.SimCF(other_fw)
+            deva.now = lambda: s.now
+            simlink.SIMS['sim://c03a'] = simlink.LinkSpec(deva, latency=0.001)
+            cfa = Crazyflie(rw_cache=cache_dir)
+            da = ds.Event()
+            cfa.connected.add_callback(lambda u: da.set())
+            cfa.connection_failed.add_callback(lambda *a: da.set())
+            cfa.open_link('sim://c03a')
+            da.wait(300.0)
+            s.sleep(0.2)
+            cfa.close_link()
+            s.sleep(0.2)
+            obs['other_firmware_cached'] = True
         cf = Crazyflie(rw_cache=cache_dir)
         done = ds.Event()
         session = {'n': 1}
@@ -225,6 +250,8 @@ def run(desc, ctx):
         if obs.get('stale_mid_download'):
             ctx.count('mon.stale_packets_delivered_mid_download')
         ctx.count('mon.stale_item_replies_mid_download', obs.get('stale_items', 0))
+    if obs.get('other_firmware_cached'):
+        ctx.count('mon.cache_shared_with_another_firmware')
     if pol == 'cachenotify':
         ctx.count('mon.cache_reconnects')
     if pol in ('cachenotify', 'notify'):
